@@ -436,11 +436,14 @@ def enum_axis(tier):
     for fs in (1.0, 2.0, 1024.0, 44100.0, 0.5, 1000.0):
         for lo in range(1, top + 1, 64):
             yield {"fs": fs, "lo": lo, "hi": min(top, lo + 63)}
+        # a few much longer grids (both parities around powers of two and a round decimal size)
+        for lo in (8191, 10000, 16383, 32767, 65535):
+            yield {"fs": fs, "lo": lo, "hi": lo + 2}
 
 
 @sub("C06.axis", enum=enum_axis, exhaustive=True, shards_quick=4, shards_thorough=8,
      doc="Range(NFFT, sampling): onesided / twosided / centerdc axes have NFFT/2+1 | (NFFT+1)/2, NFFT, NFFT entries equal to "
-         "k*df (centred: (k - NFFT//2)*df), for every NFFT 1..1024 (4096 in the thorough tier) x 6 sampling frequencies")
+         "k*df (centred: (k - NFFT//2)*df), for every NFFT 1..1024 (4096 in the thorough tier) and 15 grids of 8191..65537 points x 6 sampling frequencies")
 def c06_axis(ctx, case):
     fs = case["fs"]
     n = 0
